@@ -77,11 +77,13 @@ func (a *MempoolAPI) Utxos(address string) ([]Utxo, error) {
 		return nil, err
 	}
 	sort.Slice(utxos, func(i int, j int) bool {
-		if utxos[i].Status.BlockTime == utxos[j].Status.BlockTime {
-			return utxos[i].TxID < utxos[j].TxID
-		} else {
+		if utxos[i].Status.BlockTime != utxos[j].Status.BlockTime {
 			return utxos[i].Status.BlockTime < utxos[j].Status.BlockTime
 		}
+		if utxos[i].TxID != utxos[j].TxID {
+			return utxos[i].TxID < utxos[j].TxID
+		}
+		return utxos[i].Vout < utxos[j].Vout
 	})
 
 	return utxos, nil
